@@ -26,6 +26,9 @@ const (
 	JapaneseDigest = "2eed0aef492291e061633d7ad8117f1a2b03eb80a29d0e4e3117ac2528d05ffd"
 )
 
+// ReversedEnglish names a user-defined list (not a BIP-39 list): the English words in reverse order.
+const ReversedEnglish = "verif-reversed-english"
+
 // List is a word list with its reverse index.
 type List struct {
 	Name  string
@@ -35,7 +38,7 @@ type List struct {
 
 var lists = map[string]*List{}
 
-// Lang returns the list for "english" or "japanese".
+// Lang returns the list for "english", "japanese" or ReversedEnglish.
 func Lang(name string) *List {
 	if l, ok := lists[name]; ok {
 		return l
@@ -45,6 +48,12 @@ func Lang(name string) *List {
 		txt = japaneseTxt
 	}
 	l := &List{Name: name, Words: strings.Split(strings.TrimSuffix(txt, "\n"), "\n"), Index: map[string]int{}}
+	if name == ReversedEnglish {
+		// a user-defined list for the monitors that register one: the English words in reverse order
+		for i, j := 0, len(l.Words)-1; i < j; i, j = i+1, j-1 {
+			l.Words[i], l.Words[j] = l.Words[j], l.Words[i]
+		}
+	}
 	for i, w := range l.Words {
 		l.Index[w] = i
 	}
